@@ -250,7 +250,7 @@ class Rewriter:
 
     def __init__(self, float_param=None, iter_params=(), consts=()):
         self.fp = float_param
-        self.iter_params = set(iter_params)
+        self.iter_params = dict(iter_params) if isinstance(iter_params, dict) else {k: None for k in iter_params}
         self.consts = set(consts)
         self.counts = {}
 
@@ -316,7 +316,10 @@ class Rewriter:
                     i += 1
                     continue
                 if t.text in self.iter_params:
-                    out.append(L.Tok(L.IDENT, "Vec<R>", t.line))
+                    item = self.iter_params[t.text] or "R"
+                    if self.fp:
+                        item = re.sub(r"\b(%s|f64)\b" % re.escape(self.fp), "R", item)
+                    out.append(L.Tok(L.IDENT, "Vec<%s>" % item, t.line))
                     self.bump("R4")
                     i += 1
                     continue
@@ -615,6 +618,23 @@ class Unit:
                         k = L.match_close(toks, k)
                     k += 1
                 inserts[k + 1] = " it:"
+        for anchor, text in spec.get("at", []):
+            # ghost text spliced before the statement that starts with the anchor tokens (matched AFTER the rewrites)
+            atoks = [t.text for t in L.lex(anchor) if not L.is_trivia(t)]
+            ctoks = [(i_, t) for i_, t in enumerate(toks) if not L.is_trivia(t) and i_ > parts["body_open"]]
+            hit = None
+            for c0 in range(len(ctoks) - len(atoks) + 1):
+                if all(ctoks[c0 + d][1].text == atoks[d] for d in range(len(atoks))):
+                    hit = c0
+                    break
+            if hit is None:
+                raise Unsupported("lost anchor: fn %s has no statement starting with `%s`" % (spec["name"], anchor))
+            prev = ctoks[hit - 1][1].text if hit > 0 else "{"
+            if prev not in (";", "{", "}"):
+                raise Unsupported("anchor `%s` in fn %s is not at the start of a statement" % (anchor, spec["name"]))
+            idx = ctoks[hit][0]
+            inserts[idx] = inserts.get(idx, "") + text + "\n        "
+            self.log["ghost_blocks"] = self.log.get("ghost_blocks", 0) + 1
         if spec["prologue"]:
             inserts[parts["body_open"] + 1] = "\n" + "\n".join("        " + l for l in spec["prologue"]) + "\n"
             self.log["prologues"] += 1
@@ -644,11 +664,11 @@ class Unit:
         w = parts["where"]
         b = parts["body_open"]
         wtxt = text_of(toks[w:b])
-        params = re.findall(r"for\s*<\s*'\w+\s*>\s*&\s*'\w+\s+(\w+)\s*:\s*IntoIterator\s*<\s*Item\s*=\s*&\s*'\w+\s+(\w+)\s*>", wtxt)
+        params = re.findall(r"for\s*<\s*'\w+\s*>\s*&\s*'\w+\s+(\w+)\s*:\s*IntoIterator\s*<\s*Item\s*=\s*&\s*'\w+\s+(\w+|\([^)]*\))\s*>", wtxt)
         if not params:
             return toks, []
         # every where predicate must be of this shape, else unsupported
-        rest = re.sub(r"for\s*<\s*'\w+\s*>\s*&\s*'\w+\s+\w+\s*:\s*IntoIterator\s*<\s*Item\s*=\s*&\s*'\w+\s+\w+\s*>\s*,?", "", wtxt)
+        rest = re.sub(r"for\s*<\s*'\w+\s*>\s*&\s*'\w+\s+\w+\s*:\s*IntoIterator\s*<\s*Item\s*=\s*&\s*'\w+\s+(\w+|\([^)]*\))\s*>\s*,?", "", wtxt)
         rest = rest.replace("where", "").strip()
         if rest:
             raise Unsupported("where clause beyond iterable bounds: %r" % rest)
@@ -661,7 +681,7 @@ class Unit:
             raise Unsupported("generic params %r are not all iterables %r" % (gnames, names))
         new = toks[:parts["gen_open"]] + toks[parts["gen_close"] + 1:w] + [L.Tok(L.WS, " ", toks[w].line)] + toks[b:]
         self.log["rules"]["R4"] = self.log["rules"].get("R4", 0) + 1
-        return new, names
+        return new, {p_[0]: (p_[1] if p_[1].startswith("(") else None) for p_ in params}
 
     def do_const(self, args):
         """R6: `const NAME: f64 = <lit>;` -> `pub fn NAME() -> (r: R) ensures <given> { <lit as R::lit> }`"""
@@ -749,6 +769,11 @@ class Unit:
                         spec["clauses"].append(nx[4:].rstrip())
                     elif nx.startswith("//@prologue|"):
                         spec["prologue"].append(nx[len("//@prologue|"):].rstrip())
+                    elif nx.startswith("//@at "):
+                        ma = re.match(r'//@at\s+"(.*?)"\s*\|(.*)$', nx)
+                        if not ma:
+                            raise Unsupported("bad //@at directive: " + nx)
+                        spec.setdefault("at", []).append((ma.group(1), ma.group(2).rstrip()))
                     else:
                         ml = re.match(r"//@loop\s+(\d+)\|(.*)$", nx)
                         if ml:
